@@ -32,10 +32,10 @@ def nested_with_hole(rng):
     m["info"]["topology"] = "nested+nonconductive-hole"; m["info"]["hole"] = (off, r)
     return m
 
-def gen_problem(rng, kind, quick, level=1):
+def gen_problem(rng, kind, quick, level=1, counts=None, layers=None):
     if kind == "hole": m = nested_with_hole(rng)
     elif kind == "nested":
-        n = rng.choice([1, 2, 2, 3, 3, 4]); radii = [1.0]            # 1 layer: singular head matrix on this tree (discarded, counted)
+        n = layers or rng.choice([1, 2, 2, 3, 3, 4]); radii = [1.0]            # 1 layer: singular head matrix on this tree (discarded, counted)
         for _ in range(n - 1): radii.insert(0, radii[0] * rng.uniform(0.7, 0.92))
         m = models.nested(radii, [rng.choice([1.0, 0.0125, 0.33, 1.79, rng.uniform(0.05, 5)]) for _ in range(n)], level); m["info"]["topology"] = "nested"
     else: m = models.random_model(rng, level, kinds=(kind,)); m["info"]["topology"] = kind
@@ -51,6 +51,7 @@ def gen_problem(rng, kind, quick, level=1):
         m[key] = l
     m["info"]["declaration_order"] = order
     ne = rng.choice([1, 1, 3, 8]); nm = rng.choice([1, 1, 4, 7]); nd = rng.choice([1, 1, 2, 5])
+    if counts: ne, nm, nd = counts
     # electrodes: next to the first and the last vertex of every mesh of the interface that bounds Air (boundary unknown
     # indices 0 / last of the sensor operator), the rest anywhere on the scalp
     air = [b for n_, b in m["domains"] if n_ == "Air"]
@@ -242,6 +243,14 @@ def main(replay=None):
         pb["model"]["meshes"] = [(n, [tuple(v) for v in vs], [tuple(t) for t in ts]) for n, vs, ts in pb["model"]["meshes"]]
         for sig, text, rep in run_problem(ck, hb, pb, 800 + k, stats): ck.violation(sig, text, rep)
         dist["corpus"] = dist.get("corpus", 0) + 1
+    # deterministic sweep of the small shapes: every count 1..5 of electrodes, squids and dipoles occurs in every run (independently
+    # permuted against each other) on heads whose head matrix is regular -- shape-dependent fast paths live at 1, 2, 3 lines
+    pe = [1, 2, 3, 4, 5]; pm = [1, 2, 3, 4, 5]; pd = [1, 2, 3, 4, 5]; ck.rng.shuffle(pm); ck.rng.shuffle(pd)
+    for k in range(5):
+        pb = gen_problem(ck.rng, "nested" if k % 2 == 0 else "split", quick, counts=(pe[k], pm[k], pd[k]), layers=2 + k % 2)
+        pb["dips"] = pb["dips"][:pd[k]]; pb["zero_expected"] = [j for j in pb["zero_expected"] if j < pd[k]]
+        for sig, text, rep in run_problem(ck, hb, pb, 700 + k, stats): ck.violation(sig, text, rep)
+        key = "sweep e%d m%d d%d" % (pe[k], pm[k], pd[k]); dist[key] = dist.get(key, 0) + 1
     for mid, kind in enumerate(kinds):
         pb = gen_problem(ck.rng, kind, quick, level=2 if (not quick and mid in (5, 11)) else 1)    # thorough: two heads with 162-vertex meshes
         for sig, text, rep in run_problem(ck, hb, pb, mid, stats): ck.violation(sig, text, rep)
